@@ -88,6 +88,12 @@ CLAIMS = {
    text="Filter.tla defines the required closure declaratively (parent, reference and member-of-retained-non-namespace edges; tag table from has_die_back_edge) and models the worklist of get_reachable step by step with the per-unit reservation split; inside TLC, for every graph and every Required subset: worklist result = closure, Required retained, complete, minimal, no dangling reference, bounded loop. Every input graph of the bounded model (ordered forests <= 4/5 entries over 1-2 units x tag classes x <= 2-3 reference edges of 24 kinds incl. cycles, invalid offsets, unit roots as targets and holders, expression and location-list references) x every Required subset is built with gimli's writer, filtered and converted by the real API (three conversion flows, split units through a skeleton), written and read back: retained set = closure (larger closed outputs are drift), write succeeds, no dangling reference, attributes equal to the unfiltered conversion. Random forests of 50-500 entries are validated by FilterTrace.",
    note="Exhaustive within the bounds for the graph structure; concrete tags and reference kinds are rotated, not multiplied; split-unit filters only in the DWARF <= 4 GNU style (the writer cannot produce v5 skeleton headers).",
    technique="TLA+ spec Filter (declarative closure = worklist-as-coded proved by TLC); TLC-generated graphs replayed through writer, filter, converter, reader + TLC trace validation"),
+
+ "C16": dict(
+   cat="model_checking", ref="DESIGN.md §5 C16",
+   text="ListWriter.tla models write::RangeListTable / LocationListTable as a builder machine (de-duplicating add, per-version emission in the pair format and the v5 DW_RLE_/DW_LLE_ encodings, the validity errors InvalidRange / MissingBaseAddress / UnexpectedBaseAddress / default location before v5 as coded) composed with the reader model Lists.tla; TLC enumerates units with lists of up to 3/4 entries over boundary alphabets (begin = end, (0,0), all-ones, overflowing start+length) x version class x address size 4/8 x root low_pc {absent, 0, non-zero} and multi-list units with duplicates, and location expressions ending in call4 / call_ref entry references (root, own entry, forward child) whose operands come from a layout model of the unit; it checks in the model that accepted representable lists read back as their meaning through the unit base address and that equal lists share one id; every state is replayed through write::Dwarf -> read::Dwarf (attr_ranges / attr_locations) for versions 2-5 and both formats; random larger tables are validated by ListWriterTrace.",
+   note="Exhaustive over the stated alphabets; addresses are constants (no symbolic addresses); error kinds, exact section bytes and offsets are compared as drift.",
+   technique="TLA+ builder machine ListWriter composed with the reader model Lists; TLC-enumerated units replayed through writer+reader + TLC trace validation"),
 }
 NOT_YET = "check not built yet in this session (see DESIGN.md §9 build order); not claimed"
 def main():
